@@ -62,6 +62,9 @@ def _islice(it, *a):
 
 
 def _pairwise(it):
+    if not isinstance(it, (list, tuple)):
+        import itertools
+        return (x for x in itertools.pairwise(_guarded_iter(it)))      # lazy over a lazy input
     it = list(it)
     return list(zip(it, it[1:]))
 
@@ -1414,9 +1417,12 @@ class FDE:
             import itertools
             fn = {'takewhile': itertools.takewhile, 'dropwhile': itertools.dropwhile, 'filter': filter, 'map': map, 'filterfalse': itertools.filterfalse}[unparse(f).split('.')[-1]]
             pred = self.as_callable(args[0])
+            lazy_in = not isinstance(args[1], (list, tuple, dict))
             if fn is map:
-                return [pred(x) for x in args[1]]
-            return list(fn(lambda x: self._truth(pred(x)), args[1]))
+                # over a lazy iterator the result is lazy too: how far the input has been consumed can be observed (reader.pos ...)
+                return (pred(x) for x in _guarded_iter(args[1])) if lazy_in else [pred(x) for x in args[1]]
+            res_ = fn(lambda x: self._truth(pred(x)), _guarded_iter(args[1]) if lazy_in else args[1])
+            return (x for x in res_) if lazy_in else list(res_)
         if isinstance(f, ast.Name):
             n = f.id
             if n == 'hasattr':
